@@ -235,6 +235,29 @@ func TestResponderRetransmits(t *testing.T) {
 				if s.sink.Len() != before+1 {
 					t.Fatalf("Write(seq %d) produced %d downstream writes, want 1", seq, s.sink.Len()-before)
 				}
+				// the caller owns header and payload again once Write has returned: reuse them (in place) as a sender with one buffer does
+				// (DisableCopy is documented for callers that do not re-use buffers: there the harness leaves them alone)
+				for i := range hcopy.CSRC {
+					if disableCopy {
+						break
+					}
+					hcopy.CSRC[i] ^= 0xA5A5A5A5
+				}
+				for _, id := range hcopy.GetExtensionIDs() {
+					if disableCopy {
+						break
+					}
+					ext := hcopy.GetExtension(id) // the slice the header holds, not a copy
+					for j := range ext {
+						ext[j] ^= 0xEE
+					}
+				}
+				for i := range payload {
+					if disableCopy {
+						break
+					}
+					payload[i] ^= 0x5A
+				}
 				if s.nack {
 					cl := s.model.send(c)
 					classes[cl] = true
